@@ -87,7 +87,8 @@ class World:
     ]
     rule = ("program = seeded list of enter/exit of energy_units and eigenbasis_of contexts (real nested `with`), touch (read inside a "
             "context), save (path / file object / savedir / scopy), load, export and import in 5 formats x real/complex x 1-D/2-D x "
-            "with/without axis, injected write failures and user exceptions; non-trivial = >=1 save-load round trip with >=1 context "
+            "with/without axis (singleton dimensions, pre-filled targets, re-exports under other units), whole-array writes, saves "
+            "while protected, sibling and complex-Hermitian basis contexts, injected write failures, refused savedir and user exceptions; non-trivial = >=1 save-load round trip with >=1 context "
             "active at save or load time, or >=1 export/import; distinct = distinct event-log digests among non-trivial runs")
 
     def gen(self, rng, tier):
